@@ -68,7 +68,12 @@ def _factory(params, env=None):
             return {"ok": False, "info": {"why": "base tree did not become quiet"}, "sigdata": {"symptom": "base-not-quiet"}}
 
         def outside(side):
-            return {k: v for k, v in lab.account(side).items() if not inside(roots[side], k)}
+            # read straight from the mock account's object table (same content as walk('/')+download, much cheaper per engine step)
+            out = {}
+            for o in lab.p[side]._mock_fs.fs_objects():
+                if o.exists and o.path and o.path != "/" and not inside(roots[side], o.path):
+                    out[o.path] = o.contents if o.type == o.FILE else None
+            return out
 
         class Outside:
             def before(self, h, which):
